@@ -7,6 +7,7 @@
 From Coq Require Import List Arith Bool.
 Import ListNotations.
 Require Import Cherab.Model.C01_Invalidate Cherab.Proofs.C01_Invalidate.
+Require Import Cherab.Model.C01_Notifier Cherab.Proofs.C01_Notifier.
 
 (* every observation of every history shows what a scene built from scratch in the current
    configuration shows *)
@@ -40,6 +41,42 @@ Theorem C01_stale_report_empty :
   forall c0 ops, Forall (fun l => l = []) (stale_report ndata deps inval c0 ops).
 Proof. exact stale_report_empty. Qed.
 Print Assumptions C01_stale_report_empty.
+
+(* ---- the Notifier (cherab/core/utility/notify.py), the mechanism behind every invalidation ---------- *)
+
+(* for every well-formed history of add / remove / garbage collection / notify, the calls made by each
+   operation are those of the ordered set of live subscriptions *)
+Theorem C01_notifier_refines_subscriptions :
+  forall ops, wf_from [] ops = true -> map fst (nrun ninit ops) = spec_run [] ops.
+Proof. exact notifier_refines_subscriptions. Qed.
+Print Assumptions C01_notifier_refines_subscriptions.
+
+(* after ANY well-formed history a notification calls a callback exactly once if it is subscribed
+   (added, not removed since, owner not collected) and not at all otherwise: no dependent misses an
+   invalidation, whatever dead references are interleaved *)
+Theorem C01_notify_calls_exactly_the_subscribed :
+  forall (eqd : forall a b : target, {a = b} + {a <> b}) ops t, wf_from [] ops = true ->
+  count_occ eqd (last (map fst (nrun ninit (ops ++ [Notify]))) []) t = if subscribed t ops false then 1 else 0.
+Proof. exact notify_calls_exactly_the_subscribed. Qed.
+Print Assumptions C01_notify_calls_exactly_the_subscribed.
+
+(* in every reachable state a notification leaves no dead reference behind *)
+Theorem C01_notify_purges_dead : forall ops,
+  let s' := fst (notify (nfinal ninit ops)) in Forall (fun r => live s' r = true) (refs s').
+Proof. exact reachable_notify_purges_dead. Qed.
+Print Assumptions C01_notify_purges_dead.
+
+(* the theorem is about the code as written: the variant that purges while iterating loses a notification *)
+Theorem C01_purging_variant_refuted :
+  let s := {| refs := [ {| rid := 0; tgt := Meth 0 0 |}; {| rid := 1; tgt := Meth 1 0 |} ]; dead := [0]; next := 2 |} in
+  snd (notify s) = [Meth 1 0] /\ snd (notify_purging s) = [].
+Proof. exact purging_variant_skips. Qed.
+
+Example C01_notifier_nonvacuous :
+  wf_from [] [Add (Meth 0 0); Add (Fun 1); Add (Meth 0 0); Kill 1; Notify; Remove (Meth 0 0); Notify] = true /\
+  map fst (nrun ninit [Add (Meth 0 0); Add (Fun 1); Add (Meth 0 0); Kill 1; Notify; Remove (Meth 0 0); Notify])
+  = [[]; []; []; []; [Meth 0 0]; []; []].
+Proof. split; vm_compute; reflexivity. Qed.
 
 (* non-vacuity: a covering table with a non-empty cache after a 6-operation history *)
 Example C01_nonvacuous :
